@@ -331,6 +331,29 @@ func (g *Gen) FieldClasses(md protoreflect.MessageDescriptor, fd protoreflect.Fi
 			mp.Set(MapKey(fd.MapKey(), 0), v)
 			mp.Set(MapKey(fd.MapKey(), 1), mp.NewValue()) // empty message value
 			out = append(out, LMsg{"map-msgs", m})
+			// several entries of the SAME shape (every list of the same length) with different content: a
+			// decoder that reuses a scratch slice or map across entries makes them equal
+			ms := mk()
+			mps := ms.Mutable(fd).Map()
+			for k := 0; k < 3; k++ {
+				v := mps.NewValue()
+				g.fill(v.Message(), 0, 2)
+				vf := v.Message().Descriptor().Fields()
+				for i := 0; i < vf.Len(); i++ {
+					lf := vf.Get(i)
+					switch {
+					case lf.IsList() && lf.Message() == nil:
+						l := v.Message().Mutable(lf).List()
+						l.Truncate(0)
+						l.Append(g.nonDefault(lf, k))
+						l.Append(g.nonDefault(lf, k+1))
+					case !lf.IsList() && !lf.IsMap() && lf.Message() == nil && lf.ContainingOneof() == nil:
+						v.Message().Set(lf, g.nonDefault(lf, k))
+					}
+				}
+				mps.Set(MapKey(fd.MapKey(), k), v)
+			}
+			out = append(out, LMsg{"map-msgs-same-shape", ms})
 		} else {
 			for i, lv := range Scalars(vfd, Opt{NoLong: true}) {
 				mp.Set(MapKey(fd.MapKey(), i), lv.V)
